@@ -454,7 +454,6 @@ func nativeReplay(results []*symx.CaseResult) (*replayReport, error) {
 				v.Kind, v.ID, v.Msg = "panic", "panic:native:"+firstLine(r.Detail), "native panic on a path the engine passed: "+r.Detail
 			}
 			rep.confirmed = append(rep.confirmed, confirmedViolation{Spec: spec, V: v, Native: r.Outcome, Detail: r.Detail, ByReplayOnly: true})
-			rep.mismatches = append(rep.mismatches, fmt.Sprintf("%s: engine path passes but native run gives %s (vector %v) %s", spec, r.Outcome, w.Vector, r.Detail))
 		default:
 			rep.mismatches = append(rep.mismatches, fmt.Sprintf("%s: engine path passes but native run gives %s (vector %v)", spec, r.Outcome, w.Vector))
 		}
